@@ -21,8 +21,22 @@
 //! ("a listener may always USE the service"); these probes' outcomes are not compared with the twin's (the emitting call
 //! is legitimately in flight), only that they end, that no call's outcome changes and that the later listeners still run.
 //! `arrive … keep=1` + `release c`: the caller keeps its FINISHED call future alive (both stacks: the pair is kept).
+//! `cf<j>=<knob>:<value>[/<knob>:<value>…]`: the configuration of layer j (see `Cf`; every knob has the default that the layer
+//! name stands for, so a header without `cf…` means what it meant):
+//!   retry `ma:<max attempts>` `maf:1` (through `max_attempts_fn`) `bo:<back-off ms>` `ro:e1|e2|all|none` (which errors are retried);
+//!   fallback `st:value|valuefn|fromerr|fromreq|service|exc` `hp:never|e1|e2|all|unset` (the `handle` predicate; `unset` = none configured: every error is handled)
+//!   `ho:1` (predicate set before the strategy); hedge `n:<max_hedged_attempts>` `d:<ms>|max|none` (`none` = `no_delay()`);
+//!   time limiter `to:<ms>|max`; bulkhead `mc:<max concurrent>` `mw:<ms>` (not set = wait for ever); cache `sz:<n>` `ttl:<ms>|max`
+//!   `ev:lru|lfu|fifo`; circuit `cb:<window>:<minimum calls>:<failure rate %>`; adaptive `lim:<n>` (initial = min = max);
+//!   chaos `ef:0` (no `error_fn`) `ero:1` (`error_fn` before `error_rate`) `lat:1` (latency bounds set, rate 0);
+//!   reconnect `pol:none` `ma:<n>|unl` `ror:0`; executor `ex:handle`.
+//! Every answer of the observed stack is also recorded as `@fin=<c>:<answer>` (spaces as `_`) on the operation that produced
+//! it: the model driver answers with ITS `result` line for the request — the answer `TR.Stack.denote` predicts from the layers'
+//! configurations and the request's scripted outcomes wherever it predicts one, the observed answer otherwise.
 //! boundary `b0` is the one the harness drives, `b<n>` the one of the inner service.
-//! log:  `b<j> clone <src> <new>` · `b<j> poll <i> ready|pending|err` · `b<j> call <i> <tag>`
+//! log:  `b<j> clone <src> <new>` · `b<j> poll <i> ready|pending|err` · `b<j> call <i> <tag>` · `b<j> ret <k> <tag> <answer>`
+//! (`ret`: the future of the k-th call at boundary j — made for request `tag` — has resolved with that answer, rendered like a
+//! caller's result with spaces as `_`; a call future that is dropped or panics has no `ret`)
 //! Every boundary event is also recorded with `world::obs("ev", …)` so the model driver replays it.
 //!
 //! layer names (non-triggering configurations unless the name says otherwise):
@@ -72,6 +86,8 @@ pub type BoxSvc = BoxCloneService<Req, Resp, SErr>;
 
 struct TapShared {
     next: Mutex<Vec<u64>>,
+    /// calls made so far at each boundary (the k-th call's answer is reported as `ret k …`)
+    calls: Mutex<Vec<u64>>,
     /// the twin's taps neither log nor record observations
     quiet: bool,
 }
@@ -135,7 +151,7 @@ where
 {
     type Response = Resp;
     type Error = SErr;
-    type Future = S::Future;
+    type Future = TapFut<S::Future>;
     fn poll_ready(&mut self, cx: &mut Context<'_>) -> Poll<Result<(), SErr>> {
         let _g = InSync::enter();
         let r = self.inner.poll_ready(cx);
@@ -156,11 +172,52 @@ where
         ev(&self.sh, self.b, format!("poll {} {}", self.id, s));
         r
     }
-    fn call(&mut self, req: Req) -> S::Future {
+    fn call(&mut self, req: Req) -> TapFut<S::Future> {
         self.last_pending = None;
         ev(&self.sh, self.b, format!("call {} {}", self.id, req.tag));
+        let k = {
+            let mut c = self.sh.calls.lock().unwrap_or_else(|e| e.into_inner());
+            let v = c[self.b];
+            c[self.b] += 1;
+            v
+        };
+        let tag = req.tag;
         let _g = InSync::enter();
-        self.inner.call(req)
+        TapFut { fut: Box::pin(self.inner.call(req)), b: self.b, k, tag, sh: self.sh.clone(), done: false }
+    }
+}
+
+/// The call future seen at a boundary: reports the answer it resolves with (`b<j> ret <k> <tag> <answer>`). Like `MapEFut` it
+/// keeps the wrapped future after completion, for as long as it lives itself.
+pub struct TapFut<F> {
+    fut: Pin<Box<F>>,
+    b: usize,
+    k: u64,
+    tag: u64,
+    sh: Arc<TapShared>,
+    done: bool,
+}
+impl<F> Future for TapFut<F>
+where
+    F: Future<Output = Result<Resp, SErr>>,
+{
+    type Output = Result<Resp, SErr>;
+    fn poll(mut self: Pin<&mut Self>, cx: &mut Context<'_>) -> Poll<Self::Output> {
+        if self.done {
+            panic!("call future polled after completion");
+        }
+        match self.fut.as_mut().poll(cx) {
+            Poll::Ready(r) => {
+                self.done = true;
+                let s = match &r {
+                    Ok(x) => format!("ok:{}:tag={}", x.v, x.tag),
+                    Err(e) => format!("err:{}", e.0),
+                };
+                ev(&self.sh, self.b, format!("ret {} {} {}", self.k, self.tag, s.replace(' ', "_")));
+                Poll::Ready(r)
+            }
+            Poll::Pending => Poll::Pending,
+        }
     }
 }
 
@@ -458,7 +515,7 @@ impl Prober {
         let id = 900 + k;
         let kv = Kv(vec![("tag".to_string(), id.to_string()), ("inner".to_string(), self.plan.clone())]);
         let req = Req::new(id as usize, &kv);
-        let out = match drive(&mut svc, req, 1).0 {
+        let out = match drive(&mut svc, req, 1, None).0 {
             Started::Done(s) => Some(s),
             Started::Fut(mut f) => match poll_once(&mut f) {
                 Poll::Ready(s) => Some(s),
@@ -577,6 +634,39 @@ where
     }
 }
 
+/// the configuration of one layer: header `cf<j>=<knob>:<value>/<knob>:<value>…` (a value may contain `:`)
+struct Cf(Vec<(String, String)>);
+impl Cf {
+    fn of(kv: &Kv, j: usize) -> Cf {
+        let s = kv.str(&format!("cf{}", j), "");
+        Cf(s.split('/').filter_map(|it| it.split_once(':').map(|(a, b)| (a.to_string(), b.to_string()))).collect())
+    }
+    fn get(&self, k: &str) -> Option<&str> {
+        self.0.iter().find(|(a, _)| a == k).map(|(_, b)| b.as_str())
+    }
+    fn u64(&self, k: &str, d: u64) -> u64 {
+        self.get(k).and_then(|v| v.parse().ok()).unwrap_or(d)
+    }
+    fn str<'a>(&'a self, k: &str, d: &'a str) -> &'a str {
+        self.get(k).unwrap_or(d)
+    }
+    /// `<ms>` or `max` (= `Duration::MAX`)
+    fn dur(&self, k: &str) -> Option<Duration> {
+        self.get(k).map(|v| if v == "max" { Duration::MAX } else { Duration::from_millis(v.parse().unwrap_or(0)) })
+    }
+}
+
+/// which inner errors a configured predicate accepts: `e1` / `e2` by kind, `all`, `none` (nothing), `never` (nothing either)
+fn err_pred(which: &str) -> impl Fn(&SErr) -> bool + Clone + Send + Sync + 'static {
+    let w = which.to_string();
+    move |e: &SErr| match w.as_str() {
+        "all" => true,
+        "e1" => e.0.contains("ierr1"),
+        "e2" => e.0.contains("ierr2"),
+        _ => e.0.contains("never"),
+    }
+}
+
 fn boxed<S>(svc: S) -> BoxSvc
 where
     S: Service<Req, Response = Resp, Error = SErr> + Clone + Send + 'static,
@@ -627,6 +717,8 @@ fn apply(name: &str, inner: BoxSvc, lc: &Arc<ListenerCounts>, pr: &Option<Arc<Pr
     let (f0, f1, f2) = (firer(pr, j, Hook::Done), firer(pr, j, Hook::Done), firer(pr, j, Hook::Done));
     let (m0, m1, m2) = (firer(pr, j, Hook::Mid), firer(pr, j, Hook::Mid), firer(pr, j, Hook::Mid));
     let _ = (&m1, &m2);
+    // this layer's own knobs (`cf<j>=…`); without them every layer has the configuration its name stands for
+    let cf = Cf::of(kv, j);
     Some(match name {
         // `bulkhead1`: at its limit with every call (one slot, full = rejected at once); `bulkhead1w`: one slot,
         // a full bulkhead is waited for at most 10 ms. Only for requests that do not overlap (see gen/stack.py).
@@ -637,6 +729,12 @@ fn apply(name: &str, inner: BoxSvc, lc: &Arc<ListenerCounts>, pr: &Option<Arc<Pr
                 "bulkhead1" => b.max_concurrent_calls(1).reject_when_full(),
                 "bulkhead1w" => b.max_concurrent_calls(1).max_wait_duration(Duration::from_millis(10)),
                 _ => b.max_concurrent_calls(100),
+            };
+            // `mc:<n>` slots; `mw:<ms>` bounded wait (0 = rejected at once); without `mw` a full bulkhead is waited for for ever
+            let b = if cf.get("mc").is_some() { b.max_concurrent_calls(cf.u64("mc", 100) as usize) } else { b };
+            let b = match cf.dur("mw") {
+                Some(d) => b.max_wait_duration(d),
+                None => b,
             };
             let layer = b
                 .on_call_permitted(move |_| l0.hit(0))
@@ -685,8 +783,20 @@ fn apply(name: &str, inner: BoxSvc, lc: &Arc<ListenerCounts>, pr: &Option<Arc<Pr
         }
         "circuit" => {
             use tower_resilience_circuitbreaker::{CircuitBreakerError, CircuitBreakerLayer};
-            let layer = CircuitBreakerLayer::builder()
-                .sliding_window_size(1000)
+            // `cb:<window>:<minimum calls>:<failure rate %>`: thresholds the request pattern of the case cannot reach
+            let b = CircuitBreakerLayer::builder();
+            let b = match cf.get("cb") {
+                Some(v) => {
+                    let p: Vec<u64> = v.split(':').map(|x| x.parse().unwrap_or(0)).collect();
+                    let num = |i: usize, d: u64| p.get(i).copied().unwrap_or(d);
+                    b.sliding_window_size(num(0, 1000) as usize)
+                        .minimum_number_of_calls(num(1, 1000) as usize)
+                        .failure_rate_threshold(num(2, 50) as f64 / 100.0)
+                        .wait_duration_in_open(Duration::from_secs(3600))
+                }
+                None => b.sliding_window_size(1000),
+            };
+            let layer = b
                 .on_call_permitted(move |_| l0.hit(0))
                 // (emitted under the breaker's async lock: the probe queues for it and is finished by `manual probes`)
                 .on_call_permitted(move |_| m0())
@@ -722,8 +832,9 @@ fn apply(name: &str, inner: BoxSvc, lc: &Arc<ListenerCounts>, pr: &Option<Arc<Pr
         }
         "timelimiter" | "timelimiter_nocancel" => {
             use tower_resilience_timelimiter::{TimeLimiterError, TimeLimiterLayer};
+            // `to:<ms>|max`: a timeout no call of the case reaches (`max` = `Duration::MAX`)
             let layer = TimeLimiterLayer::builder()
-                .timeout_duration(Duration::from_secs(3600))
+                .timeout_duration(cf.dur("to").unwrap_or(Duration::from_secs(3600)))
                 .cancel_running_future(name == "timelimiter")
                 .on_success(move |_| l0.hit(0))
                 .on_success(move |_| l1.hit(1))
@@ -741,10 +852,17 @@ fn apply(name: &str, inner: BoxSvc, lc: &Arc<ListenerCounts>, pr: &Option<Arc<Pr
         // produces them); every other error passes through untouched
         "retry" => {
             use tower_resilience_retry::RetryLayer;
-            let layer = RetryLayer::<Req, SErr>::builder()
-                .max_attempts(3)
-                .fixed_backoff(Duration::from_millis(5))
-                .retry_on(|e: &SErr| e.0.contains("ierr1"))
+            // `ma:<n>` attempts, the first one included (0 and 1: no retry at all), `maf:1`: per request, through
+            // `max_attempts_fn`; `bo:<ms>`; `ro:e1|e2|all|none`: the errors that are retried (`all` = no predicate set)
+            let ma = cf.u64("ma", 3) as usize;
+            let b = RetryLayer::<Req, SErr>::builder();
+            let b = if cf.u64("maf", 0) == 1 { b.max_attempts_fn(move |_r: &Req| ma) } else { b.max_attempts(ma) };
+            let b = b.fixed_backoff(Duration::from_millis(cf.u64("bo", 5)));
+            let b = match cf.str("ro", "e1") {
+                "all" => b,
+                w => b.retry_on(err_pred(w)),
+            };
+            let layer = b
                 .on_success(move |_| l0.hit(0))
                 .on_success(move |_| l1.hit(1))
                 .on_success(move |_| l2.hit(2))
@@ -758,8 +876,19 @@ fn apply(name: &str, inner: BoxSvc, lc: &Arc<ListenerCounts>, pr: &Option<Arc<Pr
         // cache: the key is the request's tag and tags are distinct, so nothing ever hits
         "cache" => {
             use tower_resilience_cache::{CacheError, CacheLayer};
-            let layer = CacheLayer::<Req, u64>::builder()
-                .max_size(10_000)
+            // `sz:<n>` entries, `ttl:<ms>|max`, `ev:lru|lfu|fifo`: for requests with DISTINCT keys none of them matters
+            let b = CacheLayer::<Req, u64>::builder().max_size(cf.u64("sz", 10_000) as usize);
+            let b = match cf.dur("ttl") {
+                Some(d) => b.ttl(d),
+                None => b,
+            };
+            let b = match cf.str("ev", "") {
+                "lru" => b.eviction_policy(tower_resilience_cache::EvictionPolicy::Lru),
+                "lfu" => b.eviction_policy(tower_resilience_cache::EvictionPolicy::Lfu),
+                "fifo" => b.eviction_policy(tower_resilience_cache::EvictionPolicy::Fifo),
+                _ => b,
+            };
+            let layer = b
                 .key_extractor(|r: &Req| r.tag % 1000)
                 .on_miss(move || l0.hit(0))
                 // hit / miss are emitted inside the synchronous `call()`: registered, but such a listener does not probe
@@ -775,9 +904,24 @@ fn apply(name: &str, inner: BoxSvc, lc: &Arc<ListenerCounts>, pr: &Option<Arc<Pr
         // fallback: a value strategy that handles only errors containing "never" (none is generated)
         "fallback" => {
             use tower_resilience_fallback::{FallbackError, FallbackLayer};
-            let layer = FallbackLayer::<Req, Resp, SErr>::builder()
-                .value(Resp { v: 999_999, c: 0, tag: 999_999 })
-                .handle(|e: &SErr| e.0.contains("never"))
+            // `st:<strategy>` x `hp:<handle predicate>` (`unset`: none configured = every error is handled); `ho:1`: `handle` first.
+            // What a strategy answers: value 999999, value_fn 999998, from_error 999997 (all with that tag too),
+            // from_request_error 999996 and the backup service 999995 with the request's tag, exception `mapped(<error>)`
+            let st = cf.str("st", "value").to_string();
+            let hp = cf.str("hp", "never").to_string();
+            let first = cf.u64("ho", 0) == 1;
+            let b = FallbackLayer::<Req, Resp, SErr>::builder();
+            let b = if first && hp != "unset" { b.handle(err_pred(&hp)) } else { b };
+            let b = match st.as_str() {
+                "valuefn" => b.value_fn(|| Resp { v: 999_998, c: 0, tag: 999_998 }),
+                "fromerr" => b.from_error(|_e: &SErr| Resp { v: 999_997, c: 0, tag: 999_997 }),
+                "fromreq" => b.from_request_error(|r: &Req, _e: &SErr| Resp { v: 999_996, c: r.c, tag: r.tag }),
+                "service" => b.service(|r: Req| async move { Ok::<Resp, SErr>(Resp { v: 999_995, c: r.c, tag: r.tag }) }),
+                "exc" => b.exception(|e: SErr| SErr(format!("mapped({})", e.0))),
+                _ => b.value(Resp { v: 999_999, c: 0, tag: 999_999 }),
+            };
+            let b = if !first && hp != "unset" { b.handle(err_pred(&hp)) } else { b };
+            let layer = b
                 .on_event(move |_| l0.hit(0))
                 .on_event(move |_| l1.hit(1))
                 .on_event(move |_| l2.hit(2))
@@ -798,6 +942,13 @@ fn apply(name: &str, inner: BoxSvc, lc: &Arc<ListenerCounts>, pr: &Option<Arc<Pr
                 "hedge1" => b.max_hedged_attempts(1).delay(Duration::from_secs(3600)),
                 "hedge_fire" => b.max_hedged_attempts(2).delay(Duration::from_millis(5)),
                 _ => b.max_hedged_attempts(3).no_delay(),
+            };
+            // `n:<max_hedged_attempts>` (0 and 1: no room for a hedge), `d:<ms>|max|none` (`none` = `no_delay()`, 0 = `delay(ZERO)`)
+            let b = if cf.get("n").is_some() { b.max_hedged_attempts(cf.u64("n", 2) as usize) } else { b };
+            let b = match cf.get("d") {
+                Some("none") => b.no_delay(),
+                Some(_) => b.delay(cf.dur("d").unwrap_or(Duration::ZERO)),
+                None => b,
             };
             let layer = b
                 .on_event(FnListener::new(move |_: &HedgeEvent| l0.hit(0)))
@@ -824,10 +975,12 @@ fn apply(name: &str, inner: BoxSvc, lc: &Arc<ListenerCounts>, pr: &Option<Arc<Pr
         // closures, one per kind of event, not `EventListeners`: BOTH are registered
         "reconnect" => {
             use tower_resilience_reconnect::{ConnectionState, ReconnectConfig, ReconnectLayer, ReconnectPolicy};
-            let cfg = ReconnectConfig::builder()
-                .policy(ReconnectPolicy::fixed(Duration::from_millis(5)))
-                .max_attempts(2)
-                .retry_on_reconnect(true)
+            // `pol:none` (no back-off policy: a connection failure is not retried), `ma:<n>|unl`, `ror:0`
+            let b = ReconnectConfig::builder();
+            let b = if cf.str("pol", "fixed") == "none" { b.policy(ReconnectPolicy::none()) } else { b.policy(ReconnectPolicy::fixed(Duration::from_millis(5))) };
+            let b = if cf.str("ma", "2") == "unl" { b.unlimited_attempts() } else { b.max_attempts(cf.u64("ma", 2) as u32) };
+            let cfg = b
+                .retry_on_reconnect(cf.u64("ror", 1) == 1)
                 .reconnect_predicate(|e| e.to_string().contains("ierr1"))
                 // `on_state_change`: run the three listeners inside it, each under catch_unwind, and let the callback itself
                 // panic if one of them did — on the transitions of `lpt` only (a callback that chokes on one kind of news)
@@ -859,11 +1012,16 @@ fn apply(name: &str, inner: BoxSvc, lc: &Arc<ListenerCounts>, pr: &Option<Arc<Pr
         // adaptive: AIMD with limit 1000 (no event listeners in this crate)
         "adaptive" => {
             use tower_resilience_adaptive::{AdaptiveError, AdaptiveLimiterLayer, IntoLayer};
+            // `lim:<n>`: initial = min = max = n (a limit that cannot move)
+            let (ini, lo, hi) = match cf.get("lim") {
+                Some(_) => (cf.u64("lim", 1000) as usize, cf.u64("lim", 1000) as usize, cf.u64("lim", 1000) as usize),
+                None => (1000, 500, 1000),
+            };
             let layer = AdaptiveLimiterLayer::<tower_resilience_adaptive::Aimd>::builder()
                 .aimd()
-                .initial_limit(1000)
-                .min_limit(500)
-                .max_limit(1000)
+                .initial_limit(ini)
+                .min_limit(lo)
+                .max_limit(hi)
                 .latency_threshold(Duration::from_secs(3600))
                 .build()
                 .into_layer();
@@ -885,7 +1043,8 @@ fn apply(name: &str, inner: BoxSvc, lc: &Arc<ListenerCounts>, pr: &Option<Arc<Pr
         // executor: the current runtime (no event listeners in this crate)
         "executor" => {
             use tower_resilience_executor::{ExecutorError, ExecutorLayer};
-            let layer = ExecutorLayer::<tokio::runtime::Handle>::builder().current().build();
+            let b = ExecutorLayer::<tokio::runtime::Handle>::builder();
+            let layer = if cf.str("ex", "") == "handle" { b.handle(tokio::runtime::Handle::current()).build() } else { b.current().build() };
             boxed(map_e(layer.layer(inner), |e| match e {
                 ExecutorError::Service(e) => SErr(format!("executor({})", e)),
                 ExecutorError::TaskCancelled => SErr("executor!cancelled".into()),
@@ -895,7 +1054,9 @@ fn apply(name: &str, inner: BoxSvc, lc: &Arc<ListenerCounts>, pr: &Option<Arc<Pr
         "chaos" => {
             use tower_resilience_chaos::ChaosLayer;
             let f: fn(&Req) -> SErr = chaos_inject;
-            let layer = ChaosLayer::builder()
+            // rates exactly 0: `ef:0` no `error_fn` at all (latency-only builder), `ero:1` `error_fn` first and the rate set
+            // on the typed builder, `lat:1` latency bounds configured (never used with rate 0)
+            let b = ChaosLayer::builder()
                 .name("verif")
                 .on_passed_through(move || l0.hit(0))
                 .on_passed_through(move || m0())
@@ -904,11 +1065,15 @@ fn apply(name: &str, inner: BoxSvc, lc: &Arc<ListenerCounts>, pr: &Option<Arc<Pr
                 .on_passed_through(move || l1.hit(1))
                 .on_passed_through(move || l2.hit(2))
                 .latency_rate(0.0)
-                .seed(7)
-                .error_rate(0.0)
-                .error_fn(f)
-                .build();
-            boxed(layer.layer(inner))
+                .seed(7);
+            let b = if cf.u64("lat", 0) == 1 { b.min_latency(Duration::from_millis(5)).max_latency(Duration::from_millis(20)) } else { b };
+            if cf.u64("ef", 1) == 0 {
+                boxed(b.build().layer(inner))
+            } else if cf.u64("ero", 0) == 1 {
+                boxed(b.error_fn(f).error_rate(0.0).build().layer(inner))
+            } else {
+                boxed(b.error_rate(0.0).error_fn(f).build().layer(inner))
+            }
         }
         _ => return None,
     })
@@ -921,6 +1086,8 @@ struct Stack {
     held: Option<BoxSvc>,
     lc: Arc<ListenerCounts>,
     pr: Option<Arc<Prober>>,
+    /// the twin: no log, no observations
+    quiet: bool,
 }
 
 /// what an `arrive` produced on one stack
@@ -945,7 +1112,7 @@ where
 impl Stack {
     fn new(kv: &Kv, layers: &[String], lp: u64, quiet: bool) -> Stack {
         let n = layers.len();
-        let sh = Arc::new(TapShared { next: Mutex::new(vec![1; n + 1]), quiet });
+        let sh = Arc::new(TapShared { next: Mutex::new(vec![1; n + 1]), calls: Mutex::new(vec![0; n + 1]), quiet });
         let lc = Arc::new(ListenerCounts {
             counts: (0..=CB).map(|_| AtomicU64::new(0)).collect(),
             panic_mask: lp,
@@ -973,7 +1140,7 @@ impl Stack {
                 }
             };
         }
-        Stack { svc, held: None, lc, pr }
+        Stack { svc, held: None, lc, pr, quiet }
     }
 
     /// `arrive`: on a clone of the outermost service, or on the one instance the harness keeps (`how=held`)
@@ -991,7 +1158,7 @@ impl Stack {
         } else {
             self.svc.clone()
         };
-        let (r, called) = drive(&mut svc, req, kv.u64("polls", 1).max(1));
+        let (r, called) = drive(&mut svc, req, kv.u64("polls", 1).max(1), if self.quiet { None } else { Some(c) });
         // A caller that gives up must drop the instance: one that stays alive after a `Pending` keeps its
         // place in the queue of a ConcurrencyLimit / Buffer and would be handed capacity nobody uses
         // (and a failed service is discarded). The next `how=held` request starts from a fresh clone.
@@ -1005,7 +1172,7 @@ impl Stack {
 /// Drive a service the way a contract-respecting caller does: poll_ready (possibly several times) until ready,
 /// then call. A panic out of `poll_ready` / `call` is the caller's answer `panic`. The flag says whether the
 /// service was called (otherwise the caller gave up and must drop the instance).
-fn drive(svc: &mut BoxSvc, req: Req, want: u64) -> (Started, bool) {
+fn drive(svc: &mut BoxSvc, req: Req, want: u64, fin: Option<usize>) -> (Started, bool) {
     let (mut got, mut tries) = (0, 0);
     let mut early: Option<String> = None;
     while got < want && tries < want + 8 {
@@ -1030,7 +1197,7 @@ fn drive(svc: &mut BoxSvc, req: Req, want: u64) -> (Started, bool) {
         return (Started::Done(s), false);
     }
     match catch_unwind(AssertUnwindSafe(|| svc.call(req))) {
-        Ok(fut) => (Started::Fut(Box::pin(Kept { fut, done: false })), true),
+        Ok(fut) => (Started::Fut(Box::pin(Kept { fut, done: false, fin })), true),
         Err(_) => (Started::Done("panic".into()), true),
     }
 }
@@ -1041,6 +1208,12 @@ fn drive(svc: &mut BoxSvc, req: Req, want: u64) -> (Started, bool) {
 struct Kept {
     fut: BoxFuture<'static, Result<Resp, SErr>>,
     done: bool,
+    /// the caller whose answer this is (observed stack only): the answer is recorded as `@fin=<c>:<answer>`
+    fin: Option<usize>,
+}
+/// the answer request `c` gets, recorded for the model driver (which replies with the answer IT expects)
+fn obs_fin(c: usize, s: &str) {
+    obs("fin", format!("{}:{}", c, s.replace(' ', "_")));
 }
 impl Future for Kept {
     type Output = String;
@@ -1048,12 +1221,25 @@ impl Future for Kept {
         if self.done {
             panic!("call future polled after completion");
         }
-        match self.fut.as_mut().poll(cx) {
-            Poll::Ready(r) => {
-                self.done = true;
-                Poll::Ready(render(r))
+        let this = &mut *self;
+        match catch_unwind(AssertUnwindSafe(|| this.fut.as_mut().poll(cx))) {
+            Ok(Poll::Ready(r)) => {
+                this.done = true;
+                let s = render(r);
+                if let Some(c) = this.fin {
+                    obs_fin(c, &s);
+                }
+                Poll::Ready(s)
             }
-            Poll::Pending => Poll::Pending,
+            Ok(Poll::Pending) => Poll::Pending,
+            Err(p) => {
+                // the call future panicked: that is the caller's answer (the poller above reports `panic`)
+                this.done = true;
+                if let Some(c) = this.fin {
+                    obs_fin(c, "panic");
+                }
+                std::panic::resume_unwind(p)
+            }
         }
     }
 }
@@ -1193,11 +1379,13 @@ impl Mw for Adapter {
         }
         match (a, b) {
             (Started::Done(s), None) => {
+                obs_fin(c, &s);
                 log(format!("result {} {}", c, s));
                 None
             }
             (Started::Fut(f), None) => Some(f),
             (Started::Done(s), Some(Started::Done(t))) => {
+                obs_fin(c, &s);
                 log(format!("result {} {}", c, s));
                 if s != t {
                     log(format!("twin-mismatch {} {} {}", c, s, t));
@@ -1205,6 +1393,7 @@ impl Mw for Adapter {
                 None
             }
             (Started::Done(s), Some(Started::Fut(_))) => {
+                obs_fin(c, &s);
                 log(format!("result {} {}", c, s));
                 log(format!("twin-mismatch {} {} pending", c, s));
                 None
